@@ -50,7 +50,7 @@ pub enum TryOut<'s> {
 	WouldBlock(ThreadKey),
 }
 
-pub type Body<'f, 's> = &'f dyn Fn(Flat<'s>, Option<bool>);
+pub type Body<'f, 's> = &'f (dyn for<'x> Fn(Flat<'x>, Option<bool>) + 's);
 
 pub trait Lk {
 	fn lock<'s>(&'s self, key: ThreadKey, mode: Mode) -> Box<dyn Held + 's>;
@@ -374,7 +374,7 @@ impl Lk for M {
 		}
 	}
 	fn scoped<'s>(&'s self, key: KeyArg<'_>, _mode: Mode, f: Body<'_, 's>) {
-		scoped_call!(self, scoped_lock, key, |d: &'s mut Cell3| f(
+		scoped_call!(self, scoped_lock, key, |d: &mut Cell3| f(
 			vec![(Pay::Mut(d), None)],
 			None
 		))
@@ -385,7 +385,7 @@ impl Lk for M {
 		_mode: Mode,
 		f: Body<'_, 's>,
 	) -> Result<(), KeyArg<'k>> {
-		scoped_try_call!(self, scoped_try_lock, key, |d: &'s mut Cell3| f(
+		scoped_try_call!(self, scoped_try_lock, key, |d: &mut Cell3| f(
 			vec![(Pay::Mut(d), None)],
 			None
 		))
@@ -416,11 +416,11 @@ impl Lk for R {
 	}
 	fn scoped<'s>(&'s self, key: KeyArg<'_>, mode: Mode, f: Body<'_, 's>) {
 		match mode {
-			Mode::Excl => scoped_call!(self, scoped_write, key, |d: &'s mut Cell3| f(
+			Mode::Excl => scoped_call!(self, scoped_write, key, |d: &mut Cell3| f(
 				vec![(Pay::Mut(d), None)],
 				None
 			)),
-			Mode::Shared => scoped_call!(self, scoped_read, key, |d: &'s Cell3| f(
+			Mode::Shared => scoped_call!(self, scoped_read, key, |d: &Cell3| f(
 				vec![(Pay::Ref(d), None)],
 				None
 			)),
@@ -433,11 +433,11 @@ impl Lk for R {
 		f: Body<'_, 's>,
 	) -> Result<(), KeyArg<'k>> {
 		match mode {
-			Mode::Excl => scoped_try_call!(self, scoped_try_write, key, |d: &'s mut Cell3| f(
+			Mode::Excl => scoped_try_call!(self, scoped_try_write, key, |d: &mut Cell3| f(
 				vec![(Pay::Mut(d), None)],
 				None
 			)),
-			Mode::Shared => scoped_try_call!(self, scoped_try_read, key, |d: &'s Cell3| f(
+			Mode::Shared => scoped_try_call!(self, scoped_try_read, key, |d: &Cell3| f(
 				vec![(Pay::Ref(d), None)],
 				None
 			)),
